@@ -326,6 +326,17 @@ structure InstallFlags where
   disableHooks : Bool := false
   deriving Repr, DecidableEq, Inhabited
 
+/-- `Install.failRelease`: with --atomic the release is uninstalled (history purged), otherwise
+the new revision is marked failed. -/
+def failInstallOn (fl : InstallFlags) (fNested : Faults) (rel : Rec) (s : St) : St × Outcome :=
+  if fl.atomic then
+    let (s3, o) := uninstallOn { keepHistory := false, disableHooks := fl.disableHooks, nHooks := fl.nHooks } fNested s
+    (s3, if o = .crashed then .crashed else .error)
+  else
+    match stUpdate s { rel with status := .failed } with
+    | (.crash, s3) => (s3, .crashed)
+    | (_, s3) => (s3, .error)
+
 def install (fl : InstallFlags) (f fNested : Faults) (payload : Nat) (l : Ledger) : St × Outcome :=
   let s : St := { ledger := l, decs := f.st }
   -- availableName (history is read unless dry-run)
@@ -366,14 +377,7 @@ def install (fl : InstallFlags) (f fNested : Faults) (payload : Nat) (l : Ledger
     | (.ok, s2) =>
       -- performInstall; on failure: failRelease
       let nh := if fl.disableHooks then 0 else fl.nHooks
-      let failInstall : St → St × Outcome := fun s =>
-        if fl.atomic then
-          let (s3, o) := uninstallOn { keepHistory := false, disableHooks := fl.disableHooks, nHooks := fl.nHooks } fNested s
-          (s3, if o = .crashed then .crashed else .error)
-        else
-          match stUpdate s { rel with status := .failed } with
-          | (.crash, s3) => (s3, .crashed)
-          | (_, s3) => (s3, .error)
+      let failInstall : St → St × Outcome := failInstallOn fl fNested rel
       match hookPhase s2 rel nh f.preHook with
       | (.crash, s3) => (s3, .crashed)
       | (.fail, s3) => failInstall s3
